@@ -364,7 +364,7 @@ impl<'a> Engine<'a> {
         let vidx = fam.variants.iter().position(|v| v.variant == t.variant).ok_or("variant")?;
         let mut variants = BTreeMap::new();
         variants.insert(f, vec![vidx]);
-        let cfg = RunCfg { variants, mask: c.mask, tasks: 1, strict_arena: false };
+        let cfg = RunCfg { variants, mask: c.mask, tasks: 1, strict_arena: false, deferred: false };
         let mut w = World::new(reg, self.anchors, cfg, 0xC16);
         let mut ops: Vec<Op> = Vec::new();
         let target_role = t.role;
